@@ -10,8 +10,9 @@ Close Scope Z_scope.
    a freshly constructed pool with the same settings: same reuse decisions, functions, ordering
    modes, lifespans, extras for all later calls *)
 Theorem C06_post_failure_fresh :
-  forall (l : layout) (keep : bool) (before : list hop) (ordered : bool) (mp : mparams) (later : list hop),
-  let s := fst (hstep (hstate (hinit l keep) before) (HCall ordered mp Fails)) in
+  forall (l : layout) (keep : bool) (before : list hop) (ordered : bool) (mp : mparams) (out : outcome) (later : list hop),
+  out <> Ok ->        (* Fails, or CutShort: a lazy call closed before exhaustion / input iterable raising *)
+  let s := fst (hstep (hstate (hinit l keep) before) (HCall ordered mp out)) in
   map strip (hrun s later) = map strip (hrun (hinit (p_layout s) (p_keep_alive s)) later).
 Proof. exact post_failure_fresh. Qed.
 Print Assumptions C06_post_failure_fresh.
@@ -25,12 +26,14 @@ Print Assumptions C06_later_calls_correct.
 
 (* (3) the ordering flag never survives a call, failed or not, and no worker survives a failed one *)
 Theorem C06_nothing_left_behind :
-  forall (l : layout) (keep : bool) (before : list hop) (ordered : bool) (mp : mparams),
-  let s := fst (hstep (hstate (hinit l keep) before) (HCall ordered mp Fails)) in
+  forall (l : layout) (keep : bool) (before : list hop) (ordered : bool) (mp : mparams) (out : outcome),
+  out <> Ok ->
+  let s := fst (hstep (hstate (hinit l keep) before) (HCall ordered mp out)) in
   keep_order s = false /\ alive s = false.
 Proof.
-  intros l keep before ordered mp s.
+  intros l keep before ordered mp out Hout s.
   assert (HIs : HI s) by (apply hstep_HI; apply hstate_HI; apply hinit_HI).
-  split; [apply HIs|]. unfold s. cbn [hstep fst]. rewrite failure_terminates_and_clears_spec. reflexivity.
+  split; [apply HIs|]. unfold s. destruct out; [congruence| |]; cbn [hstep fst];
+  rewrite ?failure_terminates_and_clears_spec, ?cut_short_terminates_spec; reflexivity.
 Qed.
 Print Assumptions C06_nothing_left_behind.
